@@ -539,4 +539,47 @@ for _f, _id in ((sign_handlers, "C11.SIGN-handlers"), (sign_heaps, "C11.SIGN-hea
                 (dom_invalidate, "C11.DOM-invalidate"), (dom_bracket, "C11.DOM-bracket"), (data_swap, "C11.DATA-swap")):
     _f.rule_id = _id
 
-RULES = [sign_handlers, sign_heaps, wmw_markers, guard_stats, dom_invalidate, dom_bracket, data_swap]
+def heights_edge_ends(ctx, prog):
+    """Height bookkeeping: the adjust pass names the right ends of every edge and visits every rhs node of a bind
+    (C02.DATA-edge-ends, C02.GUARD-every-rhs-node), otherwise a needed node ends at or below the bind that created it."""
+    from .c02 import data_edge_ends, guard_every_rhs_node
+    from .engine import run_relabelled
+    run_relabelled(ctx, prog, data_edge_ends, "C02.DATA-edge-ends", "C11.DATA-heights")
+    guard_every_rhs_node(ctx, prog, "C11.DATA-heights")
+
+
+heights_edge_ends.rule_id = "C11.DATA-heights"
+
+TRUNCATING_OK = {
+    ("incremental::recompute_heap::RecomputeHeap::set_max_height_allowed", "skip"):
+        "asserts that the buckets above the new limit are empty (debug check over the tail)",
+}
+
+
+def wmc_truncating(ctx, prog):
+    """Engine walks (parents, observers, handlers, nodes created on a bind's rhs, queues) must visit every element:
+    an adaptor that can end the walk early (map_while, take_while, take, skip, skip_while, step_by) silently drops
+    the elements after a dead weak entry / beyond a count. The uses that exist are frozen with their reason."""
+    R = "C11.WMC-truncating"
+    ctx.rule(R, "no truncating iterator adaptor in the engine crates outside the frozen table")
+    pat = r"Iterator::(map_while|take_while|take|skip|skip_while|step_by)$"
+    n = 0
+    for t in prog.calls_to(pat):
+        if not t.fn.crate.startswith("incremental") or t.j.get("from_expansion"):
+            continue
+        n += 1
+        name = t.callee.rsplit("::", 1)[-1]
+        ctx.site(R, t.fn, "bb{} {}".format(t.bb, name))
+        key = (q.strip_generics(t.fn.root), name)
+        inst = "adaptor:{}:{}".format(t.fn.short, name)
+        if key in TRUNCATING_OK:
+            ctx.ok(R, inst, TRUNCATING_OK[key])
+        else:
+            ctx.fail(R, inst, "{} in {}: the walk can stop before the last element (not in the frozen table of "
+                     "audited uses)".format(name, t.fn.short), fn=t.fn, span=t.span, kind="anchor")
+    ctx.ok(R, "scan", "%d adaptor call(s) inspected" % n)      # zero is the expected count in release builds
+
+
+wmc_truncating.rule_id = "C11.WMC-truncating"
+
+RULES = [sign_handlers, sign_heaps, wmw_markers, guard_stats, dom_invalidate, dom_bracket, data_swap, heights_edge_ends, wmc_truncating]
